@@ -31,6 +31,7 @@ run() { # label patch props...
   done
 }
 for f in mutants/*.patch; do
+  [ -n "${SEEDED_ONLY:-}" ] && continue
   b=$(basename "$f" .patch)
   [ -n "$PAT" ] && [[ "$b" != *$PAT* ]] && continue
   run "$b" "/verif/$f" $(props_for "$b")
